@@ -389,10 +389,16 @@ func (c *Ctx) voteConds(e *eval, d *refspec.AttestationData) {
 	_, seen := c.V.Blocks[d.BeaconBlockRoot]
 	e.cond("block-seen", 'I', true, func() bool { return seen })
 	e.cond("block-valid", 'R', true, func() bool { return !c.Bad[d.BeaconBlockRoot] })
-	e.cond("target-ancestor", 'R', seen && d.Target.Epoch < (1<<62)/sp.P.SLOTS_PER_EPOCH, func() bool {
-		a, ok := c.V.GetAncestor(d.BeaconBlockRoot, sp.StartSlotAtEpoch(d.Target.Epoch))
-		return ok && a == d.Target.Root
-	})
+	// the ancestor at the target epoch's start slot may lie before what this node knows (checkpoint sync): that is
+	// an availability condition ("unknown target", IGNORE), not a wrong vote
+	tgtEvaluable := seen && d.Target.Epoch < (1<<62)/sp.P.SLOTS_PER_EPOCH
+	var tgtAnc Root
+	tgtKnown := false
+	if tgtEvaluable {
+		tgtAnc, tgtKnown = c.V.GetAncestor(d.BeaconBlockRoot, sp.StartSlotAtEpoch(d.Target.Epoch))
+	}
+	e.cond("target-known", 'I', tgtEvaluable, func() bool { return tgtKnown })
+	e.cond("target-ancestor", 'R', tgtEvaluable && tgtKnown, func() bool { return tgtAnc == d.Target.Root })
 	e.cond("finalized-ancestor", 'I', seen, func() bool {
 		a, ok := c.V.GetAncestor(d.BeaconBlockRoot, c.finSlot())
 		return ok && a == c.V.Fin.Root
